@@ -180,7 +180,7 @@ class SpectralAnalyzer(BaseAnalyzer):
         if np.any(np.iscomplex(data)):
             # Get negative frequencies, as well as positive:
             f = np.linspace(-sampling_rate/2., sampling_rate/2., data.shape[-1])
-            spectrum_fourier = np.fft.fftshift(fft(data))
+            spectrum_fourier = np.fft.fftshift(fft(data), axes=-1)
         else:
             f = tsu.get_freqs(sampling_rate, data.shape[-1])
             spectrum_fourier = fft(data)[..., :f.shape[0]]
